@@ -118,7 +118,12 @@ def find_hook(E, n):
         return None
     seg = E.stmt_text(n)
     for anchor, fn in E.cur.hooks.items():
-        if seg.startswith(anchor):
+        if anchor.startswith("contains:"):
+            # simple statements only: a compound statement's text contains the text of its branches, and the hook must fire
+            # when the statement itself is executed, not when the `if` around it is reached
+            if isinstance(n, (ast.Expr, ast.Assign, ast.AugAssign)) and anchor[len("contains:"):] in seg:
+                return fn
+        elif seg.startswith(anchor):
             return fn
     return None
 
